@@ -504,12 +504,16 @@ VAL_ALPHA = ["a", "b", "z", "0", " ", " ", '"', "'", ",", "#", "=", "\n", "é", 
              "%", "$", "!", ":", "(", "/", "*", "\r", "}"]
 
 
+VAL_ALPHA_1LINE = [c for c in VAL_ALPHA if c not in "\n\r"]
+
+
 def g_rt_value(rng):
     r = rng.random()
     if r < 0.08:
         return rng.choice(["", " ", "a", "#", '"', "'", "''", '""', ",", "a,b", " a", "a ", "=", "[x]", "a#b", "é"])
     n = rng.randint(1, 12)
-    return "".join(rng.choice(VAL_ALPHA) for _ in range(n))
+    alpha = VAL_ALPHA if rng.random() < 0.2 else VAL_ALPHA_1LINE
+    return "".join(rng.choice(alpha) for _ in range(n))
 
 
 def rt_family(v):
